@@ -1,10 +1,5 @@
 #!/bin/sh
-# MANIFEST.setup_cmd: build every Lean library module and every driver that has a root file.
-cd "$(dirname "$0")/lean" || exit 2
-targets="HappyModel HappyProofs"
-for f in Driver/C*.lean; do
-  [ -f "$f" ] || continue
-  n=$(basename "$f" .lean | tr 'A-Z' 'a-z')
-  targets="$targets drv-$n"
-done
-exec lake build $targets
+# MANIFEST.setup_cmd: build the Lean libraries and drivers of every claimed property.
+cd "$(dirname "$0")" || exit 2
+export PYTHONPATH="$(pwd)${PYTHONPATH:+:$PYTHONPATH}"
+exec /venv/bin/python -m hv.setup
